@@ -8,8 +8,9 @@ the lines leaves stage 2 a good majority" in full generality (`repair_lt40_full`
 cascade of data-dependent global replacements.  Proved end to end (both stages composed) for the
 corruption classes "garbage in the millisecond field" (`repair_ms_garbage`, for ANY fraction below one
 half) and "garbage in the day-of-year and millisecond fields" (`repair_day_ms_garbage`, fewer than 40 %,
-under three stated side conditions); garbage in the YEAR field is covered by the correspondence check
-and the property's own oracle only, and the clause stays labelled partial.
+under three stated side conditions) and "an implausible year on some line" (`repair_year_out_of_range`, any
+number of corrupt lines); a WRONG BUT PLAUSIBLE year is covered by the correspondence check and the property's
+own oracle only, and the clause stays labelled partial.
 -/
 import PygacModel.Lemmas.TimesRepair
 import PygacModel.Lemmas.TimesDay
@@ -187,6 +188,39 @@ example : Garbled 500 false 2026 truePass garbledDays [true, true, false, true, 
     interval_cases i <;> decide +kernel +revert
 
 example : getTimes {} 500 2026 false (some 1025956800000) garbledDays =
+    [1025956800000, 1025956800500, 1025956801000, 1025956801500, 1025956802000, 1025956802500] := by decide +kernel
+
+/-- **End-to-end repair, corruption class "an implausible year"**: if the year field of ANY line other than the
+first lies outside 1978 .. current year - and whatever ALL other time fields of ALL other lines contain - then
+`get_times` returns, for every line, the first line's recorded time carried along the scan-line numbers at the
+nominal rate, to within 1 ms (first line plausible, header time within 6 min - 2 ms of it, line numbers not
+decreasing for the signed POD field).  No bound on the number of corrupt lines is needed: stage 1 rebuilds the
+whole pass from its first line. -/
+theorem repair_year_out_of_range (P : Rat) (sg : Bool) (nowYear : Int) (hd : Int) (r : RawTimes)
+    (h : FirstLineOk nowYear r) (hbad : ∃ y ∈ r.year, y < 1978 ∨ y > nowYear)
+    (hdec : (sg && decreasing r.nums) = false)
+    (hhead : absR (passOffset P sg r - (hd : Rat)) ≤ 360000 - 2) :
+    (getTimes {} P nowYear sg (some hd) r).length = r.nums.length ∧
+    ∀ i (hi : i < r.nums.length) (h1 : i < (getTimes {} P nowYear sg (some hd) r).length),
+      absR ((((getTimes {} P nowYear sg (some hd) r)[i] : Int) : Rat)
+        - (((lineIdx sg r.nums[i] : Int) : Rat) * P + passOffset P sg r)) < 1 :=
+  Times.repair_year_out_of_range P sg nowYear hd r h hbad hdec hhead
+
+/-- non-vacuity / concrete instance: line 4 carries year 0, the other lines garbage in day and ms -/
+def garbledYear : RawTimes :=
+  { nums := [1, 2, 3, 4, 5, 6], year := [2002, 2002, 2002, 0, 2002, 1999], jday := [187, 3, 300, 187, 0, 187],
+    msec := [43200000, 7, 999, 43201500, 4000000000, 43202500] }
+
+example : FirstLineOk 2026 garbledYear where
+  n_pos := by decide
+  len_y := rfl
+  len_j := rfl
+  len_m := rfl
+  year0 := by decide
+  jday0 := by decide
+  msec0 := by decide
+
+example : getTimes {} 500 2026 false (some 1025956800000) garbledYear =
     [1025956800000, 1025956800500, 1025956801000, 1025956801500, 1025956802000, 1025956802500] := by decide +kernel
 
 /-- the thresholds of the running code are the model's (6 min, 1 %, 10 s) -/
